@@ -21,7 +21,7 @@ FLOAT_CHAIN = ["FLOAT", "DOUBLE", "LONGDOUBLE"]
 
 def run(ctx):
     ctx.rule("C01.R1", "binary operator precedence and associativity of CParser.prio_map follow C11 6.5", floor=60)
-    ctx.rule("C01.R2", "operator take test: left associative needs strictly higher priority, right associative >=; entry priorities sit on level boundaries", floor=4)
+    ctx.rule("C01.R2", "expression grouping: after a binary operator the right operand takes every operator of a tighter C11 level, one of the same level only if that level is right associative, and none of a looser level (decided by evaluating _binop_take and the recursion priority over the operator table); entry priorities sit on level boundaries", floor=300)
     ctx.rule("C01.R3", "usual arithmetic conversion ranks follow the C11 chain (signed < unsigned of the same rank < next rank; integers < float < double < long double)", floor=15)
     init = ctx.fn(P, "CParser.__init__")
     table = None
@@ -69,36 +69,71 @@ def run(ctx):
         want = "RIGHT_ASSOCIATIVE" if o in RIGHT else "LEFT_ASSOCIATIVE"
         ctx.ob("C01.R1", site, "`%s` is %s" % (o, want.lower().replace("_", " ")), entries[o][0] == want, construct="assoc:" + o, node=entries[o][2])
 
-    # R2: take test
+    # R2: grouping, decided on the table itself (C11 6.5: the grammar levels are LEVELS; within a level the declared associativity)
+    from .. import minieval
     bt = ctx.fn(P, "CParser._binop_take")
     tsite = P + ":CParser._binop_take"
-    ok = None
-    for n in walk_no_nested(bt):
-        if isinstance(n, ast.If) and isinstance(n.test, ast.Compare) and len(n.test.ops) == 1:
-            r1 = [x.value for x in n.body if isinstance(x, ast.Return)]
-            r2 = [x.value for x in n.orelse if isinstance(x, ast.Return)]
-            names = {norm(n.test.left), norm(n.test.comparators[0])}
-            which = names & set(consts)
-            if r1 and r2 and isinstance(r1[0], ast.Compare) and isinstance(r2[0], ast.Compare) and len(which) == 1:
-                is_left = (which == {"LEFT_ASSOCIATIVE"}) == isinstance(n.test.ops[0], ast.Eq)
-                l, r = (r1[0], r2[0]) if is_left else (r2[0], r1[0])
-                ok = (isinstance(l.ops[0], ast.Gt) and isinstance(r.ops[0], ast.GtE)
-                      and norm(l.left) == norm(r.left) and norm(l.comparators[0]) == norm(r.comparators[0]) == "priority")
-    if ok is None:
-        ctx.undecided("C01.R2", tsite, "associativity test not recognised")
-    else:
-        ctx.ob("C01.R2", tsite, "left associative: take iff op_prio > priority; right associative: op_prio >= priority", ok, construct="take")
-    # recursion passes the operator's own priority down
     pb = ctx.fn(P, "CParser.parse_binop_with_precedence")
+    psite = P + ":CParser.parse_binop_with_precedence"
+    table_val = {o: (consts[a], pr) for o, (a, pr, _) in entries.items()}
+    base_env = {"self.prio_map": table_val, "LEFT_ASSOCIATIVE": consts["LEFT_ASSOCIATIVE"], "RIGHT_ASSOCIATIVE": consts["RIGHT_ASSOCIATIVE"]}
+
+    def take(op, prio):
+        return bool(minieval.call(bt, [op, prio], base_env))
     rec = [c for c in ast.walk(pb) if isinstance(c, ast.Call) and norm(c.func) == "self.parse_binop_with_precedence"]
     ctx.need(rec, "parse_binop_with_precedence does not recurse")
-    prio_src = None
-    for n in walk_no_nested(pb):
-        if isinstance(n, ast.Assign) and isinstance(n.targets[0], ast.Name) and "self.prio_map[" in norm(n.value) and norm(n.value).endswith("[1]"):
-            prio_src = n.targets[0].id
-    for i, c in enumerate(rec):
-        ctx.ob("C01.R2", P + ":CParser.parse_binop_with_precedence", "the right operand is parsed at the priority of the operator just taken",
-               prio_src is not None and len(c.args) == 1 and norm(c.args[0]) == prio_src, construct="recurse-own-prio:%d" % i, node=c)
+    loops = [l for l in pb.body if isinstance(l, ast.While)]
+    ctx.need(len(loops) == 1, "parse_binop_with_precedence: operator loop not found")
+    opvar = None
+    for n in ast.walk(loops[0]):
+        if isinstance(n, ast.Assign) and isinstance(n.value, ast.Call) and norm(n.value.func) in ("self.next_token", "self.consume") and isinstance(n.targets[0], ast.Name):
+            opvar = n.targets[0].id
+            break
+    ctx.need(opvar is not None, "parse_binop_with_precedence: the taken operator token is not bound to a name")
+
+    def rhs_priority(o):
+        env = dict(base_env)
+        env[opvar + ".val"] = o
+        env[opvar + ".typ"] = o
+        for st in ast.walk(loops[0]):
+            if isinstance(st, ast.Assign) and isinstance(st.targets[0], ast.Name) and st.targets[0].id != opvar and not any(x in rec for x in ast.walk(st.value)):
+                try:
+                    env[st.targets[0].id] = minieval.ev(st.value, env)
+                except minieval.Undecidable:
+                    pass
+        from ..sym import conjuncts
+        for c in rec:
+            st = c
+            while not isinstance(st, ast.stmt):
+                st = st._parent
+            holds = True
+            for cond, pol in conjuncts(st, pb, {}):
+                if "_binop_take" in norm(cond):
+                    continue
+                try:
+                    if bool(minieval.ev(cond, env)) != pol:
+                        holds = False
+                        break
+                except minieval.Undecidable:
+                    continue
+            if holds:
+                return minieval.ev(c.args[0], env)
+        raise minieval.Undecidable("no right-operand parse applies to %s" % o)
+    try:
+        for o1 in ops:
+            r = rhs_priority(o1)
+            for o2 in ops:
+                l1, l2 = level_of[o1], level_of[o2]
+                want = l2 > l1 or (l2 == l1 and o1 in RIGHT)
+                got = take(o2, r)
+                ctx.ob("C01.R2", psite, "in `a %s b %s c` the operand b %s `%s`" % (o1, o2, "takes" if want else "leaves", o2), got == want, construct="group:%s:%s" % (o1, o2),
+                       detail="right operand of `%s` is parsed at priority %r; _binop_take(%r, %r) = %r" % (o1, r, o2, r, got))
+        ctx.ob("C01.R2", tsite, "a token that is not a binary operator ends the expression", take(")", 0) is False and take(";", 0) is False and take(":", 0) is False, construct="non-operator")
+    except minieval.Undecidable as e:
+        ctx.undecided("C01.R2", psite, "operator grouping could not be evaluated: %s" % e)
+    wl = loops[0].test
+    ok = isinstance(wl, ast.Call) and norm(wl.func) == "self._binop_take" and [norm(a) for a in wl.args] == ["self.peek", pb.args.args[1].arg]
+    ctx.ob("C01.R2", psite, "the loop continues while _binop_take accepts the next token at the priority this parse was started with", ok, construct="loop-uses-own-priority")
     # entry points: a start priority p admits exactly the levels above a boundary
     entry = {"CParser.parse_expression": ",", "CParser.parse_assignment_expression": "=", "CParser.parse_constant_expression": "?"}
     for q, lowest in entry.items():
@@ -114,8 +149,10 @@ def run(ctx):
         lv = level_of[lowest]
         bad = []
         for o in ops:
-            assoc, pr, _ = entries[o]
-            taken = pr > p if assoc == "LEFT_ASSOCIATIVE" else pr >= p
+            try:
+                taken = take(o, p)
+            except minieval.Undecidable:
+                taken = None
             if taken != (level_of[o] >= lv):
                 bad.append(o)
         ctx.ob("C01.R2", P + ":" + q, "start priority %d admits exactly the operators from `%s` upward" % (p, lowest), not bad,
